@@ -234,8 +234,20 @@ func c06Exec(x *Ctx) {
 			if dotu {
 				ver = "9P2000.u"
 			}
+			if r.Pct(35) {
+				// a negotiation ladder first: msize down, up, down ... before the session proper
+				for k := r.Range(1, 3); k > 0; k-- {
+					before := len(p.Recv)
+					send(Encode(&Msg{Type: Tversion, Tag: NOTAG, Msize: uint32(r.Pick(24, 25, 40, 64, 100, 256, 8192, 70000)), Version: ver}, false))
+					for y := 0; y < 60 && len(p.Recv) == before && !p.EOF; y++ {
+						rt.Yield(rt.SiteActor)
+					}
+				}
+				x.Probe("negotiation-ladder")
+			}
+			nrecv := len(p.Recv)
 			send(Encode(&Msg{Type: Tversion, Tag: NOTAG, Msize: msize, Version: ver}, false))
-			for y := 0; y < 60 && len(p.Recv) == 0 && !p.EOF; y++ {
+			for y := 0; y < 60 && len(p.Recv) == nrecv && !p.EOF; y++ {
 				rt.Yield(rt.SiteActor)
 			}
 			if msize >= 64 {
@@ -245,7 +257,11 @@ func c06Exec(x *Ctx) {
 				send(Encode(&Msg{Type: Topen, Tag: 4, Fid: 1, Mode: 0}, p.Dotu))
 				send(Encode(&Msg{Type: Topen, Tag: 5, Fid: 2, Mode: uint8(r.Pick(0, 1, 2))}, p.Dotu))
 				if r.Bool() {
-					send(Encode(&Msg{Type: Tread, Tag: 6, Fid: 1, Offset: 0, Count: uint32(r.Pick(0, 50, 200, int(msize)-24))}, p.Dotu))
+					cnt := uint32(r.Pick(0, 50, 200, int(msize)-24))
+					if m := p.Msize; m >= 24 && cnt > m-24 && r.Bool() {
+						cnt = m - 24 // the largest count the negotiated msize allows
+					}
+					send(Encode(&Msg{Type: Tread, Tag: 6, Fid: 1, Offset: 0, Count: cnt}, p.Dotu))
 				}
 			}
 		}
